@@ -520,6 +520,16 @@ for p in ('C09', 'C06', 'C02'):
     PLANS[p]['thorough'] = PLANS[p]['thorough'] + [TEMP_SPANS_Q]
 
 
+# optional call whose method name equals an *operator* entry of the configuration (`a?.plusOperator(a)`): operator entries are
+# not methods — the chain must stay untouched (no lowering, status not modified)
+OPTCHAIN_OPNAME_Q = dict(scenario='block_expr', args=dict(policy=expr_profile([['OptChain'], ['OptChain', 'Ident', 'Call', 'Member'], ['Ident', 'Member'], ['Ident']], max_args=(0, 1, 0, 0), props=['plusOperator', 'tplOperator', 'substring'], names=['a'], op_budget=3),
+                                                          config=[dict(src='plusOperator', dst=None, operator=True, awc=False), dict(src='tplOperator', dst=None, operator=True, awc=False), dict(src='substring', dst='stringSubstring', operator=False, awc=False)]),
+                         label='optional chains of up to 2 links whose property names are in {plusOperator, tplOperator (operator entries), substring (configured method)}')
+for p in ('C12', 'C05', 'C15'):
+    PLANS[p]['quick'] = PLANS[p]['quick'] + [OPTCHAIN_OPNAME_Q]
+    PLANS[p]['thorough'] = PLANS[p]['thorough'] + [OPTCHAIN_OPNAME_Q]
+
+
 PLANS['C13']['quick'] = PLANS['C13']['quick'] + [PRIVATE_Q]
 PLANS['C13']['thorough'] = PLANS['C13']['thorough'] + [PRIVATE_Q]
 
